@@ -25,7 +25,7 @@ RULE = ("seeded spline spaces (degree 1-5, 1-40 cells, clamped/periodic, uniform
         "dense reference solve, polynomial reproduction (monomial and Chebyshev form, value and first derivative, at "
         "breakpoints/end points/random points), wrapped periodic coefficients bit-identical.  A class is (dimension, path, "
         "degree, boundary, uniformity, data kind, monitor).  Spaces with kappa > 1e8 are skipped and counted.")
-ASSUMPTIONS = ["kappa(C) computed from the reference collocation matrix; tolerance 200*eps*kappa*scale",
+ASSUMPTIONS = ["kappa(C) computed from the reference collocation matrix; tolerance 200*eps*kappa*(1+max|x|/min(dx))*scale (conditioning of the solve and cancellation in knot differences of the input)",
                "reference evaluator: de Boor on control points (vlib.refmath)"]
 REQUIRED_EVENTS = {"interp_points_compared": 1, "poly_points_compared": 1, "wrap_checks": 1, "complex_cases": 1, "interp2d_points_compared": 1}
 C = 200.0
@@ -97,6 +97,10 @@ def _case_1d(case, spl):
     kappa = np.linalg.cond(M)
     if not np.isfinite(kappa) or kappa > 1e8:
         return result(SKIP, what="kappa=%.3g" % kappa)
+    # basis values are formed from differences of absolute coordinates: the INPUT's rounding contributes
+    # eps*max|x|/min(dx) to every collocation entry, on top of the conditioning of the solve
+    a_, b_ = [float(v) for v in basis.domain]
+    kappa = kappa * (1.0 + max(abs(a_), abs(b_)) / float(np.min(np.diff(breaks))))
     rs = np.random.RandomState(case["seed"] % (1 << 31))
     cls = set()
     ev = {"interp_points_compared": 0, "poly_points_compared": 0, "wrap_checks": 0, "complex_cases": 0, "coeff_vectors_compared": 0}
@@ -187,6 +191,8 @@ def _case_2d(case, spl):
     k1, k2 = np.linalg.cond(M1), np.linalg.cond(M2)
     if k1 * k2 > 1e8:
         return result(SKIP, what="kappa=%.3g" % (k1 * k2))
+    k1 = k1 * (1.0 + max(abs(float(b1.domain[0])), abs(float(b1.domain[1]))) / float(np.min(np.diff(br1))))
+    k2 = k2 * (1.0 + max(abs(float(b2.domain[0])), abs(float(b2.domain[1]))) / float(np.min(np.diff(br2))))
     name = "2d/%s/p%d%s-p%d%s/%s-%s" % ("fast" if b1.cubic_uniform else "general", p1, "P" if b1.periodic else "C", p2, "P" if b2.periodic else "C",
                                          case["cfg1"]["kind"], case["cfg2"]["kind"])
     rs = np.random.RandomState(case["seed"] % (1 << 31))
